@@ -374,6 +374,8 @@ pub struct Inner {
     pub data_phase: bool,
     pub violation: Option<Violation>,
     pub trace: Option<Vec<String>>,
+    /// the simulated device filled up (a short write happened): every later write fails
+    pub disk_full: bool,
     pub stats: Stats,
     running: Option<TaskId>,
     shutdown: bool,
@@ -917,6 +919,7 @@ impl World {
                 data_phase: false,
                 violation: None,
                 trace: if record_trace { Some(Vec::new()) } else { None },
+                disk_full: false,
                 stats: Stats::default(),
                 running: None,
                 shutdown: false,
@@ -1011,6 +1014,7 @@ impl World {
                 std::process::exit(71);
             }
         }
+        clear_fsize_limit();
         g
     }
 
@@ -1070,6 +1074,7 @@ impl World {
 
     /// Runs end-of-history checks, then releases every parked thread and waits for them.
     pub fn finish(&self, end: EndReason) {
+        clear_fsize_limit();
         {
             let mut g = self.lock();
             if g.violation.is_none() {
@@ -1498,25 +1503,59 @@ impl Backend for World {
         let actor = self.actor();
         g.emit(Ev::Fs { task: actor, op, path: path.to_path_buf() });
         if let Actor::Task(me) = actor {
+            if (op == "open" || op == "create") && is_fifo(path) {
+                // open(2) of a FIFO without a process at the other end blocks: the real call is never reached, the task
+                // stays parked until the run is torn down
+                g.emit(Ev::Fs { task: actor, op: "open-blocks-on-fifo", path: path.to_path_buf() });
+                g.tasks[me as usize].token += 1;
+                let _g = self.block(g, me);
+                return;
+            }
             let _g = self.yield_point(g, me);
         }
     }
 
     fn disk_write_point(&self, file: &mut File, data: &[u8]) -> io::Result<()> {
         let mut g = self.lock();
+        clear_fsize_limit();
         if g.shutdown {
             return Ok(());
         }
         g.tick();
         let actor = self.actor();
+        if g.disk_full && !data.is_empty() {
+            g.emit(Ev::DiskWrite { task: actor, len: data.len(), fault: Some(("disk-full", 0)) });
+            if let Actor::Task(me) = actor {
+                let _g = self.yield_point(g, me);
+            }
+            return Err(io::Error::new(io::ErrorKind::Other, "injected ENOSPC (the device filled up earlier)"));
+        }
         let mut fault = None;
         if g.cfg.disk_w > 0 && g.faults_allowed() && !data.is_empty() {
             let w = [1000 - g.cfg.disk_w.min(999), g.cfg.disk_w];
             if g.choices.choose("disk.fault", &w) == 1 {
-                let kind = g.choices.range("disk.fault.kind", 2);
+                let kind = g.choices.range("disk.fault.kind", 3);
                 let n = if kind == 0 { 0 } else { 1 + g.choices.range("disk.fault.torn", data.len().max(2) as u32 - 1) as usize };
-                fault = Some((if kind == 0 { "disk-write-err" } else { "torn-write" }, n.min(data.len().saturating_sub(1))));
+                fault = Some((["disk-write-err", "torn-write", "short-write"][kind as usize], n.min(data.len().saturating_sub(1))));
             }
+        }
+        if let Some(("short-write", n)) = fault {
+            if n >= 1 {
+                // The device fills up inside this block: the real write(2) that follows stores n bytes and
+                // says so (a short count, no error); every later write fails. Done with the file size limit
+                // of the process, which is safe because exactly one simulated thread runs at a time and the
+                // limit is lifted as soon as control comes back to the simulator.
+                g.use_budget("short-write");
+                g.disk_full = true;
+                g.emit(Ev::DiskWrite { task: actor, len: data.len(), fault });
+                if let Actor::Task(me) = actor {
+                    let _g = self.yield_point(g, me);
+                }
+                let at = file.metadata().map(|m| m.len()).unwrap_or(0);
+                set_fsize_limit(at + n as u64);
+                return Ok(());
+            }
+            fault = Some(("disk-write-err", 0));
         }
         if let Some((k, n)) = fault {
             g.use_budget(k);
@@ -1532,6 +1571,60 @@ impl Backend for World {
             let _g = self.yield_point(g, me);
         }
         Ok(())
+    }
+}
+
+pub fn is_fifo(path: &Path) -> bool {
+    use std::os::unix::fs::FileTypeExt;
+    std::fs::metadata(path).map(|m| m.file_type().is_fifo()).unwrap_or(false)
+}
+
+pub fn make_fifo(path: &Path) {
+    use std::os::unix::ffi::OsStrExt;
+    extern "C" {
+        fn mkfifo(path: *const std::os::raw::c_char, mode: u32) -> i32;
+    }
+    let c = std::ffi::CString::new(path.as_os_str().as_bytes()).expect("path");
+    let rc = unsafe { mkfifo(c.as_ptr(), 0o644) };
+    assert!(rc == 0, "mkfifo {} failed", path.display());
+}
+
+// file size limit of the process (RLIMIT_FSIZE), used to make one real write(2) come back short
+#[repr(C)]
+struct RLimit {
+    cur: u64,
+    max: u64,
+}
+extern "C" {
+    fn getrlimit(resource: i32, r: *mut RLimit) -> i32;
+    fn setrlimit(resource: i32, r: *const RLimit) -> i32;
+    fn signal(sig: i32, handler: usize) -> usize;
+}
+const RLIMIT_FSIZE: i32 = 1;
+const SIGXFSZ: i32 = 25;
+static FSIZE_LIMITED: std::sync::atomic::AtomicBool = std::sync::atomic::AtomicBool::new(false);
+
+fn set_fsize_limit(n: u64) {
+    unsafe {
+        signal(SIGXFSZ, 1); // SIG_IGN: the write reports EFBIG instead of killing the process
+        let mut r = RLimit { cur: 0, max: 0 };
+        if getrlimit(RLIMIT_FSIZE, &mut r) == 0 {
+            r.cur = n.min(r.max);
+            setrlimit(RLIMIT_FSIZE, &r);
+        }
+    }
+    FSIZE_LIMITED.store(true, std::sync::atomic::Ordering::SeqCst);
+}
+
+pub fn clear_fsize_limit() {
+    if FSIZE_LIMITED.swap(false, std::sync::atomic::Ordering::SeqCst) {
+        unsafe {
+            let mut r = RLimit { cur: 0, max: 0 };
+            if getrlimit(RLIMIT_FSIZE, &mut r) == 0 {
+                r.cur = r.max;
+                setrlimit(RLIMIT_FSIZE, &r);
+            }
+        }
     }
 }
 
